@@ -410,8 +410,29 @@ def run_parallel(chk, jobs, installs, replays=None, procs=8):
     import multiprocessing as mp
     from concurrent.futures import ProcessPoolExecutor
     full = [(chk.pid, chk.tier, chk.seed, lab, m, f, a, installs) for lab, m, f, a in jobs]
-    with ProcessPoolExecutor(max_workers=procs, mp_context=mp.get_context("spawn")) as ex:
-        results = list(ex.map(_parallel_job, full))
+    # every job gets its result within a time limit; a job whose worker process hangs (pool
+    # infrastructure, not the contract) is run again in this process
+    import concurrent.futures as _cf
+    limit = 3600 if chk.tier == "thorough" else 900
+    ex = ProcessPoolExecutor(max_workers=procs, mp_context=mp.get_context("spawn"))
+    futures = [ex.submit(_parallel_job, j) for j in full]
+    results, t_end = [None] * len(full), time.time() + limit
+    pending = []
+    for k, f in enumerate(futures):
+        try:
+            results[k] = f.result(timeout=max(1.0, t_end - time.time()))
+        except (_cf.TimeoutError, _cf.process.BrokenProcessPool):
+            pending.append(k)
+    procs_ = list(getattr(ex, "_processes", {}).values())
+    ex.shutdown(wait=False, cancel_futures=True)
+    if pending:
+        for p_ in procs_:
+            try:
+                p_.kill()
+            except Exception:
+                pass
+        for k in pending:
+            results[k] = _parallel_job(full[k])
     for r in results:
         if r["error"]:
             raise RuntimeError(f"contract job {r['label']} crashed:\n{r['error']}")
